@@ -823,3 +823,75 @@ func ExtKey(ext map[string]string) string {
 	}
 	return sb.String()
 }
+
+func decimalsOf(s string) int {
+	if s == "" {
+		return 0
+	}
+	d, err := ratref.ParseDec(s)
+	if err != nil {
+		return 0
+	}
+	return d.Exp
+}
+
+// OverPreciseFixed reports whether the plan supplies a fixed (not percentage
+// or rate derived) amount with more decimals than the precision it is
+// presented with: line discounts / charges finer than the item price,
+// document discounts / charges finer than the currency (or their base),
+// advances finer than the currency. gobl calculates with the supplied
+// digits but presents (and therefore stores) the rounded amount, so such
+// documents do not recalculate to the same figures (recorded finding of C04).
+func OverPreciseFixed(p docgen.Plan, c int, prices []Dec) bool {
+	fixed := func(a docgen.LineAdj) bool {
+		if a.Rate != "" {
+			return false
+		}
+		if a.Percent != "" {
+			if pc, err := ParsePercent(a.Percent); err == nil && pc.Units.Sign() != 0 {
+				return false
+			}
+		}
+		return true
+	}
+	for i, l := range p.Lines {
+		if i >= len(prices) || prices[i].Units == nil {
+			continue
+		}
+		e := prices[i].Exp
+		for _, a := range l.Discounts {
+			if fixed(a) && decimalsOf(a.Amount) > e {
+				return true
+			}
+		}
+		for _, a := range l.Charges {
+			if fixed(a) && decimalsOf(a.Amount) > e {
+				return true
+			}
+		}
+	}
+	for _, as := range [][]docgen.DocAdj{p.Discounts, p.Charges} {
+		for _, a := range as {
+			if a.Percent != "" {
+				if pc, err := ParsePercent(a.Percent); err == nil && pc.Units.Sign() != 0 {
+					continue
+				}
+			}
+			e := c
+			if a.Base != "" && decimalsOf(a.Base) > e {
+				e = decimalsOf(a.Base)
+			}
+			if decimalsOf(a.Amount) > e {
+				return true
+			}
+		}
+	}
+	if p.Kind != "delivery" {
+		for _, a := range p.Advances {
+			if a.Percent == "" && decimalsOf(a.Amount) > c {
+				return true
+			}
+		}
+	}
+	return false
+}
